@@ -385,6 +385,9 @@ pub fn run(ctx: &Ctx, replay: Option<&J>, idem: bool) -> i32 {
     for s in sequences() {
         progs.push(Prog { src: s, class: "sequence".into() });
     }
+    for s in crate::c09::commented_programs(thorough) {
+        progs.push(Prog { src: s, class: "commented-template".into() });
+    }
     // dedup by source
     {
         let mut seen = std::collections::HashSet::new();
@@ -399,7 +402,7 @@ pub fn run(ctx: &Ctx, replay: Option<&J>, idem: bool) -> i32 {
     let cli_inputs: Vec<String> = {
         let mut v: Vec<String> = corpus().into_iter().map(|(_, t)| t).collect();
         // batches of generated programs, one statement per line group
-        let singles: Vec<&Prog> = progs.iter().filter(|p| !p.class.starts_with("corpus") && p.class != "sequence").collect();
+        let singles: Vec<&Prog> = progs.iter().filter(|p| !p.class.starts_with("corpus") && p.class != "sequence" && p.class != "commented-template").collect();
         for chunk in singles.chunks(400).take(if thorough { 200 } else { 12 }) {
             // a line that starts with `-` would continue the previous statement: parenthesise it
             v.push(
@@ -411,6 +414,7 @@ pub fn run(ctx: &Ctx, replay: Option<&J>, idem: bool) -> i32 {
             );
         }
         v.extend(sequences().into_iter().step_by(9));
+        v.extend(crate::c09::commented_programs(false).into_iter().step_by(5));
         v
     };
     let cli_results: Vec<Result<String, String>> = par_map(&cli_inputs, |src| run_cli_format(src));
